@@ -540,6 +540,7 @@ func (c *Ctx) callBySpec(spec *FuncSpec, fn *types.Func, x *ast.CallExpr, st *St
 		c.addObl(Obl{Name: fmt.Sprintf("%s/consistent@call#%d[%s]", c.unit, c.safeN["consistent@call"], spec.Name), Kind: "vacuity", Guard: st.guard, Goal: "true", Expect: "sat", Pos: c.pos(x.Pos()),
 			Text: "the state after assuming the trusted contract of " + spec.Name + " is satisfiable"})
 	}
+	c.callResults = append(c.callResults, callResult{Callee: spec.Name, Guard: st.guard, Vals: results})
 	c.usedSpecs[specKey(spec.Pkg, spec.Name)] = true
 	if pureKey != "" {
 		c.specEnv[pureKey] = TupleV(results)
@@ -826,6 +827,32 @@ func init() {
 						save := c.noDef
 						c.noDef = true // no auxiliary definitions: the assumption must mention the drawn value directly (slicing)
 						fact := implies(le(lo, hi), and(le(lo, sv), le(sv, hi)))
+						c.noDef = save
+						c.assume(fact)
+					}
+				}
+			}
+		}
+		// SliceOfN(gen, lo, hi).Draw: the drawn slice has between lo and hi elements (hi < 0: no upper bound)
+		if sel != nil {
+			if gen, ok := sel.X.(*ast.CallExpr); ok {
+				if gs, ok := gen.Fun.(*ast.SelectorExpr); ok && gs.Sel.Name == "SliceOfN" && len(gen.Args) == 3 {
+					lo, ok1 := c.eval(gen.Args[1], st).(Scalar)
+					hi, ok2 := c.eval(gen.Args[2], st).(Scalar)
+					ln := ""
+					switch lv := v.(type) {
+					case ListV:
+						ln = lv.Len
+					case SliceV:
+						ln = lv.Len
+					}
+					if ok1 && ok2 && ln != "" {
+						l := Scalar{ln, c.idx()}
+						le := func(a, b Scalar) string { return c.binop(token.LEQ, a, b, st, x.Pos()).(Scalar).T }
+						lo, hi = c.convertSort(lo, l.S), c.convertSort(hi, l.S)
+						save := c.noDef
+						c.noDef = true
+						fact := and(implies(le(Scalar{c.zero(l.S), l.S}, lo), le(lo, l)), implies(and(le(Scalar{c.zero(l.S), l.S}, hi), le(lo, hi)), le(l, hi)))
 						c.noDef = save
 						c.assume(fact)
 					}
